@@ -307,6 +307,7 @@ type srcConsts struct {
 	Minute   int64
 	Clock    int64
 	PtsBits  int64
+	Next     int64 // append(spliceInsertTimes, minuteStart+N*timescale): first splice of the next minute; 0 = absent
 	Problems []string
 }
 
@@ -371,6 +372,19 @@ func readSrcConsts() srcConsts {
 				return true
 			}
 			switch lhs.Name {
+			case "spliceInsertTimes":
+				// spliceInsertTimes = append(spliceInsertTimes, minuteStart+N*timescale)
+				if call, ok := x.Rhs[0].(*ast.CallExpr); ok && len(call.Args) == 2 {
+					if fn, ok := call.Fun.(*ast.Ident); ok && fn.Name == "append" {
+						if b, ok := call.Args[1].(*ast.BinaryExpr); ok && b.Op == token.ADD {
+							if id, ok := b.X.(*ast.Ident); ok && id.Name == "minuteStart" {
+								if v, ok := timesTimescale(b.Y); ok {
+									sc.Next = v
+								}
+							}
+						}
+					}
+				}
 			case "adDuration":
 				if x.Tok == token.DEFINE {
 					if v, ok := timesTimescale(x.Rhs[0]); ok {
@@ -480,7 +494,7 @@ func (sc srcConsts) term(id int) string {
 		}
 		return sc.AdDurDef
 	}
-	return fmt.Sprintf("CConst %d %s %s %s %d %d %d %d %d %d %d", id, l(1), l(2), l(3), ad(1), ad(2), ad(3), sc.Lead, sc.Minute, sc.Clock, sc.PtsBits)
+	return fmt.Sprintf("CConst %d %s %s %s %d %d %d %d %d %d %d %d", id, l(1), l(2), l(3), ad(1), ad(2), ad(3), sc.Lead, sc.Minute, sc.Clock, sc.PtsBits, sc.Next)
 }
 
 // ---------------------------------------------------------------- L1: served segments
@@ -510,6 +524,7 @@ type windowIn struct {
 	TS      uint64 `json:"timescale"`
 	SegDur  uint64 `json:"nominal_seg_dur"`
 	IsVideo bool   `json:"is_video"`
+	Prefix  string `json:"url_prefix,omitempty"` // e.g. "chunkdur_0.5/" (chunked low-latency delivery)
 }
 
 type segObs struct {
@@ -524,10 +539,14 @@ func nowFor(nr int, segDur, ts uint64) int {
 	return int((uint64(nr)+1)*segDur*1000/ts) + 1500
 }
 
+// urlPrefix is put in front of scte35_<n>/ in the segment URLs (e.g. "chunkdur_0.5/": chunked
+// low-latency delivery). Set by the callers, which run sequentially.
+var urlPrefix = ""
+
 func fetchSeg(ls *lib.Livesim, a *assetInfo, rep string, n int, nr int, segDur, ts uint64) (segObs, error) {
-	cfg := ""
+	cfg := urlPrefix
 	if n != 0 {
-		cfg = fmt.Sprintf("scte35_%d/", n)
+		cfg += fmt.Sprintf("scte35_%d/", n)
 	}
 	url := fmt.Sprintf("/livesim2/%s%s/%s/%d.m4s?nowMS=%d", cfg, a.Name, rep, nr, nowFor(nr, segDur, ts))
 	r := ls.GetRaw(url)
@@ -713,7 +732,11 @@ func oracleSingle(c *lib.Ctx, id string, in directIn, o obs) {
 		sigma := want[0]
 		minuteStart := sigma - (sigma % (60 * ts))
 		if in.SegStart < minuteStart {
-			c.Fail(id, "missing-event:minute-boundary", fmt.Sprintf("segment (%d,%d]/%d contains the announce instant of splice %d s but starts in the previous minute: no event", in.SegStart, in.SegEnd, ts, sigma/ts), in)
+			fin := struct {
+				directIn
+				Offset uint64 `json:"offset_s"`
+			}{in, (sigma / ts) % 60}
+			c.Fail(id, "missing-event:minute-boundary", fmt.Sprintf("segment (%d,%d]/%d contains the announce instant of splice %d s but starts in the previous minute: no event", in.SegStart, in.SegEnd, ts, sigma/ts), fin)
 		} else {
 			c.Fail(id, "event-missing", fmt.Sprintf("segment (%d,%d]/%d contains the announce instant of splice %d s: no event", in.SegStart, in.SegEnd, ts, sigma/ts), in)
 		}
@@ -763,6 +786,7 @@ func oracleWindow(c *lib.Ctx, baseID string, w windowIn, segs []segObs) {
 		}
 	}
 	first, last := segs[0], segs[len(segs)-1]
+	anyEvent := len(carriers) > 0
 	for m := first.Start / (60 * ts); m <= (last.Start+last.Dur)/(60*ts)+1; m++ {
 		for _, off := range offsetsDoc[n] {
 			sigma := (60*m + off) * ts
@@ -783,6 +807,8 @@ func oracleWindow(c *lib.Ctx, baseID string, w windowIn, segs []segObs) {
 			id := fmt.Sprintf("%s/%d", baseID, h.Nr)
 			cs := carriers[sigma]
 			switch {
+			case len(cs) == 0 && strings.Contains(w.Prefix, "chunkdur_") && !anyEvent:
+				c.Fail(id, "missing-event:chunked", fmt.Sprintf("%s %sscte35_%d: splice at %d s is never announced in chunked low-latency delivery: none of the %d segments of the window carries an emsg (segment %d should carry this one)", w.Asset, w.Prefix, n, sigma/ts, len(segs), h.Nr), in(h.Nr, sigma, off))
 			case len(cs) == 0 && h.Start < 60*m*ts:
 				c.Fail(id, "missing-event:minute-boundary", fmt.Sprintf("%s N=%d: splice at %d s (minute %d + %d s) is never announced: segment %d (%d,%d]/%d contains the announce instant but starts in the previous minute", w.Asset, n, sigma/ts, m, off, h.Nr, h.Start, h.Start+h.Dur, ts), in(h.Nr, sigma, off))
 			case len(cs) == 0:
@@ -967,7 +993,7 @@ func runC13(c *lib.Ctx) error {
 	// to the model: every segment with an event, every segment next to an announce instant, and
 	// (all == false) one in `every` of the others.
 	window := func(a *assetInfo, n int, firstNr, count int, kind string, every int) error {
-		w := windowIn{Kind: "window", Asset: a.Name, Rep: a.VideoRep, N: n, FirstNr: firstNr, Count: count, TS: a.TS, SegDur: a.SegDur, IsVideo: true}
+		w := windowIn{Kind: "window", Asset: a.Name, Rep: a.VideoRep, N: n, FirstNr: firstNr, Count: count, TS: a.TS, SegDur: a.SegDur, IsVideo: true, Prefix: urlPrefix}
 		var segs []segObs
 		base := fmt.Sprintf("w%d", r.nextID)
 		for nr := firstNr; nr < firstNr+count; nr++ {
@@ -1000,7 +1026,11 @@ func runC13(c *lib.Ctx) error {
 			c.Res.Inputs[id] = x
 			c.Count("segment:" + kind)
 			np := n
-			r.terms = append(r.terms, fmt.Sprintf("CSeg %d true %s %d %d %d %s", idn, optZ(&np), so.Start, so.Dur, a.TS, obsTerm(so.O)))
+			ctor := "CSeg"
+			if strings.Contains(urlPrefix, "chunkdur_") {
+				ctor = "CChunk"
+			}
+			r.terms = append(r.terms, fmt.Sprintf("%s %d true %s %d %d %d %s", ctor, idn, optZ(&np), so.Start, so.Dur, a.TS, obsTerm(so.O)))
 			if so.O.Class == 1 {
 				r.distinct[fmt.Sprint("s", a.Name, n, nr)] = true
 				c.Count("segment-result:event")
@@ -1054,6 +1084,26 @@ func runC13(c *lib.Ctx) error {
 				first := int(uint64(m)*60*a.TS/a.SegDur) - 1
 				if err := window(a, n, first, perMin+3, "far-minute", 10); err != nil {
 					return err
+				}
+			}
+		}
+		// chunked low-latency delivery (chunkdur_<s>/: the response is built from re-chunked fragments):
+		// the same events in the same segments. Requests are made after the segment end, so that all
+		// chunks are written at once.
+		if !heavy {
+			for n := 1; n <= 3; n++ {
+				for _, pfx := range []string{"chunkdur_0.5/", "chunkdur_1/ato_1/"} {
+					urlPrefix = pfx
+					m := rng.Intn(170)
+					first := int(uint64(m)*60*a.TS/a.SegDur) - 1
+					if first < 0 {
+						first = 0
+					}
+					err := window(a, n, first, perMin+3, "chunked-minute", 4)
+					urlPrefix = ""
+					if err != nil {
+						return err
+					}
 				}
 			}
 		}
@@ -1121,6 +1171,57 @@ func runC13(c *lib.Ctx) error {
 			}
 		}
 	}
+	// other representations (text, image) never carry events; the text adaptation sets of the MPD
+	// have no InbandEventStream (testpic_2s has IMSC1 text/image subtitle tracks and thumbnails)
+	for _, n := range []int{1, 2, 3} {
+		for _, rep := range []string{"imsc1_txt_sv", "imsc1_img_en"} {
+			for k := 0; k < 4; k++ {
+				off := offsetsDoc[n][k%len(offsetsDoc[n])]
+				nr := int((uint64(rng.Intn(180))*60 + off - 7) / 2)
+				if k == 3 {
+					nr = rng.Intn(5000)
+				}
+				url := fmt.Sprintf("/livesim2/scte35_%d/testpic_2s/%s/%d.m4s?nowMS=%d", n, rep, nr, (nr+1)*2000+1500)
+				resp := ls.GetRaw(url)
+				idn, id := r.id()
+				in := map[string]any{"kind": "other-rep", "url": url}
+				c.Res.Inputs[id] = in
+				c.Count("segment:text")
+				if resp.Status != 200 {
+					return fmt.Errorf("%s: status %d %s", url, resp.Status, resp.Panic)
+				}
+				nEmsg := bytes.Count(resp.Body, []byte("emsg"))
+				if nEmsg != 0 {
+					c.Fail(id, "event-on-other-representation", fmt.Sprintf("%s: the segment contains %d emsg box(es)", url, nEmsg), in)
+				}
+				o := obs{Class: 0}
+				if nEmsg != 0 {
+					o = obs{Class: 4, NrEmsg: nEmsg}
+				}
+				nn := n
+				r.terms = append(r.terms, fmt.Sprintf("CSeg %d false %s %d %d %d %s", idn, optZ(&nn), nr*2000, 2000, 1000, obsTerm(o)))
+			}
+		}
+		url := fmt.Sprintf("/livesim2/scte35_%d/testpic_2s/Manifest_imsc1.mpd?nowMS=%d", n, 100000+rng.Intn(1000000))
+		resp := ls.GetRaw(url)
+		if resp.Status != 200 {
+			return fmt.Errorf("%s: status %d", url, resp.Status)
+		}
+		reAS := regexp.MustCompile(`(?s)<AdaptationSet[^>]*contentType="(\w+)".*?</AdaptationSet>`)
+		for _, m := range reAS.FindAllStringSubmatch(string(resp.Body), -1) {
+			isVideo := m[1] == "video"
+			inband := strings.Contains(m[0], `<InbandEventStream schemeIdUri="urn:scte:scte35:2013:bin"`)
+			idn, id := r.id()
+			in := map[string]any{"kind": "mpd", "url": url, "content_type": m[1]}
+			c.Res.Inputs[id] = in
+			c.Count("mpd-adaptation-set")
+			if inband != isVideo {
+				c.Fail(id, "mpd-inband-event-stream", fmt.Sprintf("%s: %s adaptation set InbandEventStream=%v with scte35=%d", url, m[1], inband, n), in)
+			}
+			nn := n
+			r.terms = append(r.terms, fmt.Sprintf("CMpd %d %s %s %s", idn, lib.Cbool(isVideo), optZ(&nn), lib.Cbool(inband)))
+		}
+	}
 	// other N are rejected with 400 (segment and MPD requests)
 	for _, n := range []int{0, 4, 5, -1, 10, 60, 100} {
 		for _, tail := range []string{"testpic_2s/V300/20.m4s", "testpic_2s/Manifest.mpd", "testpic_8s/A48/5.m4s"} {
@@ -1146,7 +1247,7 @@ func runC13(c *lib.Ctx) error {
 		r.terms = append(r.terms, fmt.Sprintf("CCfg %d %s %d", idn, optZ(&nn), resp.Status))
 	}
 
-	c.Res.Evaluations = len(r.terms) + oracleSegs - c.Res.Distribution["segment:first-hours"] - c.Res.Distribution["segment:contiguous-minute"] - c.Res.Distribution["segment:far-minute"] - c.Res.Distribution["segment:around-announce"]
+	c.Res.Evaluations = len(r.terms) + oracleSegs - c.Res.Distribution["segment:first-hours"] - c.Res.Distribution["segment:contiguous-minute"] - c.Res.Distribution["segment:far-minute"] - c.Res.Distribution["segment:around-announce"] - c.Res.Distribution["segment:chunked-minute"]
 	c.Res.ModelCases = len(r.terms)
 	c.Res.DistinctNontrivial = len(r.distinct)
 	c.Res.Rule = fmt.Sprintf("direct CreateEmsgAhead calls (start/end exactly on, one tick before/after every announce instant; segments straddling a minute; random; PTS and id wrap; other N; inverted/long segments; timescale 0; uint64 wrap), direct CreateSpliceInsertPayload calls with random parameters, and video segments served by the in-process server for testpic_2s/6s/8s and the 29.97 fps WAVE asset with scte35_1/2/3: every segment of the first 3 h (10 h in the thorough tier; WAVE: sampled minutes) plus single minutes around multiples of 2^33/90000 s and up to ~57 years from the epoch (%d s of stream fetched and checked by the oracle; of the first hours the model replays a random 1/8 of the segments with an event or next to an announce instant and 1/60 of the rest, of the other windows all of the former and 1/10 of the latter; latest minute below 200000 s ends at %d s); audio segments, scte35 off, MPDs, rejected N. distinct = distinct inputs; non-trivial = an event (emsg) was produced", streamSeconds, maxSecond)
@@ -1211,6 +1312,7 @@ func replayC13(c *lib.Ctx) error {
 			return err
 		}
 		var segs []segObs
+		urlPrefix = w.Prefix
 		for nr := w.FirstNr; nr < w.FirstNr+w.Count; nr++ {
 			so, err := fetchSeg(ls, a, w.Rep, w.N, nr, w.SegDur, w.TS)
 			if err != nil {
@@ -1235,6 +1337,17 @@ func replayC13(c *lib.Ctx) error {
 	case "consts":
 		sc := readSrcConsts()
 		fmt.Printf("replay C13: constants read from %s: %+v\n", filepath.Join(repoRoot(), "pkg/scte35/scte35.go"), sc)
+	case "other-rep":
+		ls, err := lib.NewLivesim(lib.TestVodRoot, nil)
+		if err != nil {
+			return err
+		}
+		resp := ls.GetRaw(kind.URL)
+		n := bytes.Count(resp.Body, []byte("emsg"))
+		fmt.Printf("replay C13: %s -> %d, %d bytes, %d emsg\n", kind.URL, resp.Status, len(resp.Body), n)
+		if n != 0 {
+			c.Fail("replay", "event-on-other-representation", fmt.Sprintf("%d emsg box(es)", n), kind)
+		}
 	case "mpd", "reject":
 		ls, err := lib.NewLivesim(lib.TestVodRoot, nil)
 		if err != nil {
